@@ -65,6 +65,23 @@ def check_rejection(lw, us, errs, tag):
         except Exception as e:
             errs.append((f"rejection-raises-{type(e).__name__}", f"{e} log_w={lw} u={us}"))
             return None
+    # the decisions are a function of (log_w, u) only: a library-wide numerical floor
+    # (`nessai.config.general.eps`, set through FlowSampler(eps=...)) is not an input
+    from nessai import config as _config
+
+    _eps0 = _config.general.eps
+    for _eps in (0.05,):
+        _config.general.eps = _eps
+        try:
+            with rng.patch_rand(lambda shape, name: uarr.copy() if shape == (n,) else None, callers={"draw_posterior_samples"}):
+                with np.errstate(all="ignore"):
+                    _, idx2 = draw_posterior_samples(ns, log_w=np.array(lw, dtype=float), method="rejection_sampling", return_indices=True)
+            if np.asarray(idx2).tobytes() != np.asarray(idx).tobytes():
+                errs.append(("rejection-decisions-depend-on-config-eps", f"eps={_eps}: kept {list(map(int, idx2))} vs {list(map(int, idx))} log_w={lw} u={us}"))
+        except Exception as e:
+            errs.append((f"rejection-raises-{type(e).__name__}:config-eps", f"{e} log_w={lw} u={us}"))
+        finally:
+            _config.general.eps = _eps0
     r = ratio(lw)
     want = [i for i in range(n) if mp.mpf(us[i]) < r[i]]
     # decisions within 4 ulp of the boundary are not decidable in float64
